@@ -1,9 +1,318 @@
-(* C20 — lemmas about Model/Sheet.v *)
+(* C20 — lemmas about Model/Sheet.v, part 1: boolean reflection, the sanity rules, well-formed names and
+   injectivity of uid rendering. *)
 From Coq Require Import QArith Lia.
 From Verif Require Import Prelude Model.Sheet.
 Open Scope Z_scope.
 
-(* west side of a Links row: every empty cell takes the (defaulted) east value *)
-Lemma west_defaults_to_east : forall r,
-  l_west (mk_link r) = fill_side (l_east (mk_link r)) (lr_west r).
-Proof. reflexivity. Qed.
+(* ------------------------------------------------------------------ strings, membership, duplicates *)
+Lemma seqb_eq : forall a b, seqb a b = true <-> a = b.
+Proof. exact String.eqb_eq. Qed.
+Lemma seqb_neq : forall a b, seqb a b = false <-> a <> b.
+Proof. exact String.eqb_neq. Qed.
+Lemma seqb_refl : forall a, seqb a a = true.
+Proof. exact String.eqb_refl. Qed.
+Lemma seqb_sym : forall a b, seqb a b = seqb b a.
+Proof. exact String.eqb_sym. Qed.
+
+Lemma smem_In : forall x l, smem x l = true <-> In x l.
+Proof.
+  intros x l. unfold smem. rewrite existsb_exists. split.
+  - intros [y [Hy He]]. apply seqb_eq in He. subst. exact Hy.
+  - intros H. exists x. split; [exact H | apply seqb_refl].
+Qed.
+Lemma iff_false : forall (b : bool) (P : Prop), (b = true <-> P) -> (b = false <-> ~ P).
+Proof.
+  intros b P [H1 H2]. destruct b; split; intro H.
+  - discriminate.
+  - exfalso. apply H. apply H1. reflexivity.
+  - intro HP. apply H2 in HP. discriminate.
+  - reflexivity.
+Qed.
+Lemma smem_false : forall x l, smem x l = false <-> ~ In x l.
+Proof. intros x l. apply iff_false. apply smem_In. Qed.
+
+Lemma dupb_NoDup : forall l, dupb l = false <-> NoDup l.
+Proof.
+  induction l as [|x t IH]; cbn [dupb].
+  - split; [constructor | reflexivity].
+  - rewrite orb_false_iff, IH, smem_false. split.
+    + intros [H1 H2]. constructor; assumption.
+    + intros H. inversion H; subst. split; assumption.
+Qed.
+Lemma dupb_true : forall l, dupb l = true <-> ~ NoDup l.
+Proof.
+  intros l. destruct (dupb l) eqn:E.
+  - split; [|reflexivity]. intros _ H. apply dupb_NoDup in H. congruence.
+  - split; [discriminate|]. intros H. exfalso. apply H. apply dupb_NoDup. exact E.
+Qed.
+
+Lemma existsb_false : forall {A} (p : A -> bool) l, existsb p l = false <-> forall x, In x l -> p x = false.
+Proof.
+  intros A p l. split.
+  - intros H x Hx. destruct (p x) eqn:E; [|reflexivity].
+    assert (existsb p l = true) by (apply existsb_exists; exists x; split; assumption). congruence.
+  - intros H. destruct (existsb p l) eqn:E; [|reflexivity].
+    apply existsb_exists in E. destruct E as [x [Hx Hp]]. rewrite (H x Hx) in Hp. discriminate.
+Qed.
+
+(* ------------------------------------------------------------------ nodes *)
+Lemma find_node_Some : forall c ns n, find_node c ns = Some n -> In n ns /\ n_city n = c.
+Proof.
+  induction ns as [|m t IH]; cbn [find_node]; intros n H; [discriminate|].
+  destruct (seqb (n_city m) c) eqn:E.
+  - inversion H; subst. apply seqb_eq in E. split; [left; reflexivity | exact E].
+  - destruct (IH n H) as [H1 H2]. split; [right; exact H1 | exact H2].
+Qed.
+Lemma find_node_None : forall c ns, find_node c ns = None -> ~ In c (cities ns).
+Proof.
+  induction ns as [|m t IH]; cbn [find_node cities map]; intros H; [intros []|].
+  destruct (seqb (n_city m) c) eqn:E; [discriminate|].
+  apply seqb_neq in E. intros [H1|H1]; [exact (E H1) | exact (IH H H1)].
+Qed.
+Lemma find_node_In : forall ns n, NoDup (cities ns) -> In n ns -> find_node (n_city n) ns = Some n.
+Proof.
+  induction ns as [|m t IH]; intros n Hnd Hin; [destruct Hin|].
+  cbn [find_node]. cbn [cities map] in Hnd. inversion Hnd as [|x l Hx Hl]; subst.
+  destruct Hin as [Heq|Hin].
+  - subst. rewrite seqb_refl. reflexivity.
+  - destruct (seqb (n_city m) (n_city n)) eqn:E.
+    + apply seqb_eq in E. exfalso. apply Hx. rewrite E. apply in_map. exact Hin.
+    + apply IH; assumption.
+Qed.
+Lemma same_city_same_node : forall ns a b, NoDup (cities ns) -> In a ns -> In b ns -> n_city a = n_city b -> a = b.
+Proof.
+  intros ns a b Hnd Ha Hb He.
+  pose proof (find_node_In ns a Hnd Ha) as H1. pose proof (find_node_In ns b Hnd Hb) as H2.
+  rewrite He in H1. congruence.
+Qed.
+
+Lemma correct_type_city : forall ls n, n_city (correct_type ls n) = n_city n.
+Proof. intros ls n. unfold correct_type. destruct (_ && _); reflexivity. Qed.
+Lemma cities_correct : forall ls ns, cities (map (correct_type ls) ns) = cities ns.
+Proof.
+  intros ls ns. unfold cities. rewrite map_map. apply map_ext. intros n. apply correct_type_city.
+Qed.
+
+(* ------------------------------------------------------------------ links *)
+Lemma link_eqv_refl : forall l, link_eqv l l = true.
+Proof. intros l. unfold link_eqv. rewrite !seqb_refl. reflexivity. Qed.
+Lemma link_eqv_sym : forall a b, link_eqv a b = link_eqv b a.
+Proof.
+  intros a b. unfold link_eqv.
+  rewrite (seqb_sym (l_from a) (l_from b)), (seqb_sym (l_to a) (l_to b)),
+          (seqb_sym (l_from a) (l_to b)), (seqb_sym (l_to a) (l_from b)).
+  destruct (seqb (l_from b) (l_from a)), (seqb (l_to b) (l_to a)), (seqb (l_to b) (l_from a)),
+           (seqb (l_from b) (l_to a)); reflexivity.
+Qed.
+Lemma link_eqv_spec : forall a b, link_eqv a b = true <->
+  (l_from a = l_from b /\ l_to a = l_to b) \/ (l_from a = l_to b /\ l_to a = l_from b).
+Proof.
+  intros a b. unfold link_eqv. rewrite orb_true_iff, !andb_true_iff, !seqb_eq. reflexivity.
+Qed.
+
+(* no two rows at different positions join the same pair of sites *)
+Definition links_distinct (ls : list link) : Prop := ForallOrdPairs (fun a b => link_eqv a b = false) ls.
+Lemma dup_links_spec : forall ls, dup_links ls = false <-> links_distinct ls.
+Proof.
+  unfold links_distinct. induction ls as [|l t IH]; cbn [dup_links].
+  - split; [constructor | reflexivity].
+  - rewrite orb_false_iff, IH, existsb_false. split.
+    + intros [H1 H2]. constructor; [apply Forall_forall; exact H1 | exact H2].
+    + intros H. inversion H as [|x u Hf Hp]; subst. split; [apply Forall_forall; exact Hf | exact Hp].
+Qed.
+Lemma links_distinct_eq : forall ls a b, links_distinct ls -> In a ls -> In b ls -> link_eqv a b = true -> a = b.
+Proof.
+  unfold links_distinct. induction ls as [|l t IH]; intros a b Hd Ha Hb He; [destruct Ha|].
+  inversion Hd as [|x u Hf Hp]; subst. rewrite Forall_forall in Hf.
+  destruct Ha as [Ha|Ha], Hb as [Hb|Hb]; subst.
+  - reflexivity.
+  - rewrite (Hf b Hb) in He. discriminate.
+  - rewrite link_eqv_sym in He. rewrite (Hf a Ha) in He. discriminate.
+  - apply IH; assumption.
+Qed.
+Lemma links_distinct_NoDup : forall ls, links_distinct ls -> NoDup ls.
+Proof.
+  unfold links_distinct. induction ls as [|l t IH]; intros H; [constructor|].
+  inversion H as [|x u Hf Hp]; subst. constructor; [|apply IH; exact Hp].
+  intros Hin. rewrite Forall_forall in Hf. pose proof (Hf l Hin) as E. rewrite link_eqv_refl in E. discriminate.
+Qed.
+
+(* ------------------------------------------------------------------ keys "A|Z" and well-formed names *)
+Fixpoint no_char (c : ascii) (s : string) : bool :=
+  match s with EmptyString => true | String x t => negb (Ascii.eqb x c) && no_char c t end.
+(* a site name is well formed when it contains none of the separators of the generated names *)
+Definition name_ok (s : string) : bool := no_char " " s && no_char ")" s && no_char "|" s.
+
+(* s1 ++ c :: r1 = s2 ++ c :: r2 with c in neither prefix: same split *)
+Lemma split_unique : forall c s1 s2 r1 r2,
+  no_char c s1 = true -> no_char c s2 = true ->
+  (s1 +s String c r1) = (s2 +s String c r2) -> s1 = s2 /\ r1 = r2.
+Proof.
+  intros c. induction s1 as [|x t IH]; intros s2 r1 r2 H1 H2 He.
+  - destruct s2 as [|y u]; cbn in He.
+    + inversion He. split; reflexivity.
+    + inversion He; subst. cbn in H2. rewrite Ascii.eqb_refl in H2. discriminate.
+  - destruct s2 as [|y u]; cbn in He.
+    + inversion He; subst. cbn in H1. rewrite Ascii.eqb_refl in H1. discriminate.
+    + inversion He; subst. cbn in H1, H2. apply andb_true_iff in H1. apply andb_true_iff in H2.
+      destruct (IH u r1 r2 (proj2 H1) (proj2 H2) H3) as [E1 E2]. subst. split; reflexivity.
+Qed.
+
+Lemma name_ok_space : forall s, name_ok s = true -> no_char " " s = true.
+Proof. unfold name_ok. intros s H. apply andb_true_iff in H. destruct H as [H _]. apply andb_true_iff in H. tauto. Qed.
+Lemma name_ok_paren : forall s, name_ok s = true -> no_char ")" s = true.
+Proof. unfold name_ok. intros s H. apply andb_true_iff in H. destruct H as [H _]. apply andb_true_iff in H. tauto. Qed.
+Lemma name_ok_bar : forall s, name_ok s = true -> no_char "|" s = true.
+Proof. unfold name_ok. intros s H. apply andb_true_iff in H. tauto. Qed.
+
+Lemma pair_key_inj : forall a z a' z', name_ok a = true -> name_ok a' = true ->
+  pair_key a z = pair_key a' z' -> a = a' /\ z = z'.
+Proof.
+  intros a z a' z' Ha Ha' H. unfold pair_key in H.
+  exact (split_unique "|" a a' z z' (name_ok_bar _ Ha) (name_ok_bar _ Ha') H).
+Qed.
+
+Lemma append_inj_l : forall p a b, (p +s a) = (p +s b) -> a = b.
+Proof. induction p as [|c p IH]; cbn; intros a b H; [exact H | inversion H; auto]. Qed.
+
+Definition uid_names_ok (u : uid) : Prop :=
+  match u with
+  | UTrx c | URoadm c | UFused _ c | UEdfa _ c => name_ok c = true
+  | UFiber a b _ | UEdfaTo _ a b => name_ok a = true /\ name_ok b = true
+  end.
+
+Lemma no_space_in_to : forall a z c, no_char " " c = true -> c <> (a +s " to " +s z).
+Proof.
+  intros a z. induction a as [|x t IH]; intros c Hc He; subst; cbn in Hc.
+  - discriminate.
+  - apply andb_true_iff in Hc. exact (IH _ (proj2 Hc) eq_refl).
+Qed.
+
+Lemma render_inj : forall u v, uid_names_ok u -> uid_names_ok v -> render u = render v -> u = v.
+Proof.
+  intros u v Hu Hv H.
+  destruct u as [c|c|d c|a b k|d c|d a z], v as [c'|c'|d' c'|a' b' k'|d' c'|d' a' z'];
+    try (destruct d); try (destruct d'); cbn in H; try discriminate; cbn in Hu, Hv.
+  all: try (injection H as H; subst; reflexivity).
+  all: try (repeat (injection H as H)).
+  - (* fibres *)
+    destruct Hu as [Ha Hb], Hv as [Ha' Hb'].
+    change (a +s String " " ("→ " +s b +s ")-" +s k) = a' +s String " " ("→ " +s b' +s ")-" +s k')) in H.
+    destruct (split_unique " " _ _ _ _ (name_ok_space _ Ha) (name_ok_space _ Ha') H) as [E1 E2]. subst a'.
+    apply (append_inj_l "→ ") in E2.
+    change (b +s String ")" ("-" +s k) = b' +s String ")" ("-" +s k')) in E2.
+    destruct (split_unique ")" _ _ _ _ (name_ok_paren _ Hb) (name_ok_paren _ Hb') E2) as [E3 E4]. subst b'.
+    apply (append_inj_l "-") in E4. subst. reflexivity.
+  - exfalso. exact (no_space_in_to a' z' c (name_ok_space _ Hu) H).
+  - exfalso. exact (no_space_in_to a' z' c (name_ok_space _ Hu) H).
+  - exfalso. symmetry in H. exact (no_space_in_to a z c' (name_ok_space _ Hv) H).
+  - exfalso. symmetry in H. exact (no_space_in_to a z c' (name_ok_space _ Hv) H).
+  - destruct Hu as [Ha _], Hv as [Ha' _].
+    change (a +s String " " ("to " +s z) = a' +s String " " ("to " +s z')) in H.
+    destruct (split_unique " " _ _ _ _ (name_ok_space _ Ha) (name_ok_space _ Ha') H) as [E1 E2]. subst.
+    apply (append_inj_l "to ") in E2. subst. reflexivity.
+  - destruct Hu as [Ha _], Hv as [Ha' _].
+    change (a +s String " " ("to " +s z) = a' +s String " " ("to " +s z')) in H.
+    destruct (split_unique " " _ _ _ _ (name_ok_space _ Ha) (name_ok_space _ Ha') H) as [E1 E2]. subst.
+    apply (append_inj_l "to ") in E2. subst. reflexivity.
+Qed.
+
+(* ------------------------------------------------------------------ the sanity rules, as propositions *)
+Definition incident (c : string) (l : link) : Prop := l_from l = c \/ l_to l = c.
+Record sane (ns : list node) (ls : list link) (es : list eqpt) : Prop := mkSane {
+  s_cities : NoDup (cities ns);                                             (* no duplicate city *)
+  s_link_ends : forall l, In l ls -> In (l_from l) (cities ns) /\ In (l_to l) (cities ns);   (* no dangling link *)
+  s_links : links_distinct ls;                                              (* no duplicate (same or reversed) link *)
+  s_referenced : forall n, In n ns -> exists l, In l ls /\ incident (n_city n) l;   (* no unreferenced node *)
+  s_eqpt_ends : forall e, In e es -> In (e_from e) (cities ns) /\ In (e_to e) (cities ns);   (* no dangling Eqpt row *)
+  s_eqpt_link : forall e, In e es -> In (pair_key (e_from e) (e_to e)) (possible_links ls) /\
+                                      In (pair_key (e_to e) (e_from e)) (possible_links ls);   (* Eqpt rows sit on links *)
+  s_eqpt_nodup : NoDup (map (fun e => pair_key (e_from e) (e_to e)) es);    (* no duplicate Eqpt row *)
+  s_ila_one : forall n, In n ns -> n_type n = TIla -> (length (eqpts_of (n_city n) es) <= 1)%nat  (* one row per ILA *)
+}.
+
+Lemma has_links_spec : forall c ls, has_links c ls = true <-> exists l, In l ls /\ incident c l.
+Proof.
+  intros c ls. unfold has_links, incident. rewrite existsb_exists. split; intros [l [H1 H2]]; exists l; split; auto.
+  - apply orb_true_iff in H2. rewrite !seqb_eq in H2. exact H2.
+  - apply orb_true_iff. rewrite !seqb_eq. exact H2.
+Qed.
+Lemma ntype_eqb_eq : forall a b, ntype_eqb a b = true <-> a = b.
+Proof. intros [] []; cbn; split; intro H; try reflexivity; try discriminate. Qed.
+
+Definition rules : list string :=
+  ["duplicate_city"; "link_unknown_node"; "duplicate_link"; "unreferenced_node"; "eqpt_unknown_node";
+   "eqpt_unknown_link"; "duplicate_eqpt"; "duplicate_ila"]%string.
+Definition topo_err (r : string) : string := ("NetworkTopologyError:" +s r)%string.
+
+(* Either one of the eight rules rejects the workbook, or all of them hold and the conversion proper runs. *)
+Lemma checks_cases : forall ns ls es,
+  (exists r, In r rules /\
+     (let* _ := parse_check ns ls in sanity_check ns ls es) = Err (topo_err r)) \/
+  (sane ns ls es /\ parse_check ns ls = Ok tt /\ sanity_check ns ls es = Ok (map (correct_type ls) ns)).
+Proof.
+  intros ns ls es. unfold parse_check.
+  destruct (dupb (cities ns)) eqn:E1.
+  { left. exists "duplicate_city"%string. split; [cbn; tauto | reflexivity]. }
+  destruct (existsb (fun l => negb (smem (l_from l) (cities ns)) || negb (smem (l_to l) (cities ns))) ls) eqn:E2.
+  { left. exists "link_unknown_node"%string. split; [cbn; tauto | reflexivity]. }
+  cbn [bind]. unfold sanity_check.
+  destruct (dup_links ls) eqn:E3.
+  { left. exists "duplicate_link"%string. split; [cbn; tauto | reflexivity]. }
+  destruct (existsb (fun n => negb (has_links (n_city n) ls)) ns) eqn:E4.
+  { left. exists "unreferenced_node"%string. split; [cbn; tauto | reflexivity]. }
+  destruct (existsb (fun e => negb (smem (e_from e) (cities ns)) || negb (smem (e_to e) (cities ns))) es) eqn:E5.
+  { left. exists "eqpt_unknown_node"%string. split; [cbn; tauto | reflexivity]. }
+  destruct (existsb (bad_eqpt ls) es) eqn:E6.
+  { left. exists "eqpt_unknown_link"%string. split; [cbn; tauto | reflexivity]. }
+  destruct (dupb (map (fun e => pair_key (e_from e) (e_to e)) es)) eqn:E7.
+  { left. exists "duplicate_eqpt"%string. split; [cbn; tauto | reflexivity]. }
+  destruct (existsb (fun n => ntype_eqb (n_type n) TIla && Nat.ltb 1 (length (eqpts_of (n_city n) es))) ns) eqn:E8.
+  { left. exists "duplicate_ila"%string. split; [cbn; tauto | reflexivity]. }
+  right. split; [|split; reflexivity].
+  constructor.
+  - apply dupb_NoDup. exact E1.
+  - intros l Hl. rewrite existsb_false in E2. specialize (E2 l Hl). apply orb_false_iff in E2.
+    destruct E2 as [A B]. apply negb_false_iff in A, B. apply smem_In in A, B. split; assumption.
+  - apply dup_links_spec. exact E3.
+  - intros n Hn. rewrite existsb_false in E4. specialize (E4 n Hn). apply negb_false_iff in E4.
+    apply has_links_spec. exact E4.
+  - intros e He. rewrite existsb_false in E5. specialize (E5 e He). apply orb_false_iff in E5.
+    destruct E5 as [A B]. apply negb_false_iff in A, B. apply smem_In in A, B. split; assumption.
+  - intros e He. rewrite existsb_false in E6. specialize (E6 e He). unfold bad_eqpt in E6. apply orb_false_iff in E6.
+    destruct E6 as [A B]. apply negb_false_iff in A, B. apply smem_In in A, B. split; assumption.
+  - apply dupb_NoDup. exact E7.
+  - intros n Hn Ht. rewrite existsb_false in E8. specialize (E8 n Hn). rewrite Ht in E8. cbn [ntype_eqb andb] in E8.
+    apply Nat.ltb_ge in E8. exact E8.
+Qed.
+
+Lemma convert_unfold : forall w,
+  convert w = let* ns' := (let* _ := parse_check (map mk_node (w_nodes w)) (map mk_link (w_links w)) in
+                           sanity_check (map mk_node (w_nodes w)) (map mk_link (w_links w)) (map mk_eqpt (w_eqpts w))) in
+              build ns' (map mk_link (w_links w)) (map mk_eqpt (w_eqpts w)) (w_roadms w).
+Proof.
+  intros w. unfold convert. destruct (parse_check _ _) as [[]|e]; reflexivity.
+Qed.
+
+(* accepted workbooks satisfy every rule, and what is built is built from the corrected node list *)
+Lemma convert_ok_sane : forall w n, convert w = Ok n ->
+  let ns := map mk_node (w_nodes w) in let ls := map mk_link (w_links w) in let es := map mk_eqpt (w_eqpts w) in
+  sane ns ls es /\ build (map (correct_type ls) ns) ls es (w_roadms w) = Ok n.
+Proof.
+  intros w n H ns ls es. rewrite convert_unfold in H.
+  destruct (checks_cases ns ls es) as [[r [_ Hr]]|[Hs [H1 H2]]].
+  - fold ns ls es in H. rewrite Hr in H. discriminate.
+  - fold ns ls es in H. rewrite H1 in H. cbn [bind] in H. rewrite H2 in H. cbn [bind] in H. split; assumption.
+Qed.
+
+(* a workbook breaking any rule is rejected with a topology error naming one of the rules - never converted *)
+Lemma convert_rejects : forall w,
+  ~ sane (map mk_node (w_nodes w)) (map mk_link (w_links w)) (map mk_eqpt (w_eqpts w)) ->
+  exists r, In r rules /\ convert w = Err (topo_err r).
+Proof.
+  intros w Hn. rewrite convert_unfold.
+  destruct (checks_cases (map mk_node (w_nodes w)) (map mk_link (w_links w)) (map mk_eqpt (w_eqpts w)))
+    as [[r [Hr He]]|[Hs _]].
+  - exists r. split; [exact Hr|]. rewrite He. reflexivity.
+  - contradiction.
+Qed.
